@@ -75,6 +75,38 @@ type MessageBadArrayElem struct {
 
 func (*MessageBadArrayElem) GetID() uint32 { return 60006 }
 
+// fields of defined types without a mavenum tag: refused, or accepted and then encoded like their underlying type
+type (
+	Callsign string
+	Flag     string
+	Celsius  float32
+	Counter  uint16
+)
+
+type MessageDefinedString struct {
+	Mmsi     uint32
+	Callsign Callsign `mavlen:"7"`
+	Channel  uint8
+}
+
+func (*MessageDefinedString) GetID() uint32 { return 60021 }
+
+type MessageDefinedChar struct {
+	A    uint16
+	Flag Flag
+	B    uint8
+}
+
+func (*MessageDefinedChar) GetID() uint32 { return 60022 }
+
+type MessageDefinedNumbers struct {
+	T Celsius
+	N [2]Counter
+	Z uint8
+}
+
+func (*MessageDefinedNumbers) GetID() uint32 { return 60023 }
+
 // MessageBadLate is malformed in its LAST field, after many good ones (the check of the struct takes a while)
 type MessageBadLate struct {
 	A1, A2, A3, A4, A5, A6, A7, A8         uint32
@@ -335,6 +367,9 @@ func cmdC17(o opts) {
 		{"distinct_high_ids", []message.Message{&MessageUserHighId{}, &MessageUserHighId2{}, &MessageUserMaxId{}, &MessageDup65536A{}}},
 		{"malformed_namesake_of_shipped_message", namesakeCase},
 		{"namesakes_of_shipped_messages", inhouse.Good},
+		{"defined_string_type", []message.Message{&MessageGoodOne{}, &MessageDefinedString{Mmsi: 0x01020304, Callsign: "IZ2ABC", Channel: 16}}},
+		{"defined_char_type", []message.Message{&MessageDefinedChar{A: 0x1122, Flag: "Q", B: 9}}},
+		{"defined_number_types", []message.Message{&MessageDefinedNumbers{T: 21.5, N: [2]Counter{7, 0x0102}, Z: 3}, &MessageGoodOne{}}},
 	}
 	for _, c := range cases {
 		var defs []DefJ
@@ -344,8 +379,20 @@ func cmdC17(o opts) {
 		if defs == nil {
 			defs = []DefJ{}
 		}
-		_, ok, pan := safeDialectInit(&dialect.Dialect{Version: 3, Messages: c.msgs})
-		rec.Put(M{"e": "DINIT", "case": c.name, "defs": defs, "init_ok": ok, "panic": pan})
+		drw, ok, pan := safeDialectInit(&dialect.Dialect{Version: 3, Messages: c.msgs})
+		// first use: what the accepted dialect's codecs make of the messages as given (both versions)
+		probes := []M{}
+		if ok && !pan && drw != nil && strings.HasPrefix(c.name, "defined_") {
+			for i, m := range c.msgs {
+				if rwm := drw.GetMessage(m.GetID()); rwm != nil {
+					for _, v2 := range []bool{true, false} {
+						out, p2 := safeWrite(rwm, m, v2)
+						probes = append(probes, M{"d": i + 1, "vals": valsOf(m), "v2": v2, "out": out, "panic": p2})
+					}
+				}
+			}
+		}
+		rec.Put(M{"e": "DINIT", "case": c.name, "defs": defs, "init_ok": ok, "panic": pan, "probes": probes})
 	}
 	rec.Close()
 }
